@@ -184,3 +184,11 @@ def run(facts, rep, tier):
     rule_r1(facts, rep)
     rule_r2(facts, rep)
     rule_r3(facts, rep)
+    rep.rule("C17-R4", "An empty expansion is a valid result: the squashed tree is written back through GraphBuilder::insert_from_iter, which unwraps child() of the document root, so "
+             "TreeIter::child must yield a (placeholder) cursor for every existing node, childless or not.")
+    from . import conditions
+    fails = conditions.evaluate(facts, "shape:treeiter-child-total")
+    if fails:
+        rep.violation("C17-R4", "TreeIter::child|total-on-existing-nodes", fails[0])
+    else:
+        rep.ok("C17-R4", "TreeIter::child|total-on-existing-nodes", "child() is Some(..) filtered only on self.node().is_some()")
